@@ -9,6 +9,13 @@ Structure (see notes/HOWTO.md):
      transform objects.
   3. oracle, independent of the model, on the same runs: invariants, frame,
      rejection, hit flag, clone / dictionary round trip (state and independence).
+     Histories also contain read-only uses of the SAME object ("look": export
+     to a dictionary + round trip, clone, reads by name / through the properties,
+     printing, to_series) after which the history continues with the original,
+     not with the copy; a history that assigns after an export / a copy ends with
+     an export and a clone of its final state.  An export / a copy must reproduce the state read from the attributes
+     at that moment whatever was exported, copied or assigned before, and a
+     read-only use must leave the vector as it was.
   4. search on the transform classes: read-only calls interleaved with
      assignments must leave params / constants (values and bounds) unchanged.
 """
@@ -31,6 +38,9 @@ TOL = Fr(1, 10 ** 6)          # the property's "at least 1e-6 away from a bound"
 NAMEPOOL = ["a", "b", "c", "d", "lam", "nu", "x1", "alpha_2", "Scale"]
 FOREIGN = ["zz", "other"]     # identifiers that are neither names nor members of Vector
 FIELDS = ("names", "mins", "maxs", "defaults", "values", "hit", "cb", "chb", "an")
+# read-only uses of a vector (the history continues with the same object)
+LOOKS = ("dict", "clone", "read", "str", "series")
+LOOK_FN = {"dict": "from_dict", "clone": "clone", "read": "read", "str": "str", "series": "to_series"}
 
 
 # ----------------------------------------------------------------------------
@@ -127,6 +137,13 @@ def c_op(op):
 
 
 def c_hist(ctor, s0, ops, trace):
+    # a read-only use ("look") is not an operation of the value-semantics model: the model sees the
+    # history without it (that it leaves the state unchanged is the oracle's clause; if it did not,
+    # the next state would disagree with the model as well)
+    keep = [i for i, o in enumerate(ops) if o[0] != "look"]
+    if trace:
+        trace = [trace[i] for i in keep]
+    ops = [ops[i] for i in keep]
     exp0 = "None" if s0 is None else f"(Some {c_state(s0)})"
     return (f"VHist {c_slist(ctor['names'])} {cm.coq_option(ctor['defaults'], cm.coq_flist)} "
             f"{cm.coq_option(ctor['mins'], cm.coq_flist)} {cm.coq_option(ctor['maxs'], cm.coq_flist)} "
@@ -293,7 +310,7 @@ def gen_ctor(rng, n=None, kinds=None, flags=None, an=None, clean=False):
     return ctor
 
 
-def op_alphabet(names, mins, maxs, full_product=True, rng=None, nall=6):
+def op_alphabet(names, mins, maxs, full_product=True, rng=None, nall=6, looks=("dict", "clone")):
     """the operation alphabet of the exhaustive enumeration for one vector"""
     n = len(names)
     ops = []
@@ -316,6 +333,10 @@ def op_alphabet(names, mins, maxs, full_product=True, rng=None, nall=6):
     if n >= 1:
         ops.append(("all", [0.5] * (n - 1)))
     ops += [("reset",), ("clone",), ("dict",)]
+    if n >= 1:
+        # read-only uses of the same object (an empty vector has nothing an export could miss:
+        # its exhaustive depth-3 alphabet is left as it was)
+        ops += [("look", w) for w in looks]
     return ops
 
 
@@ -336,11 +357,13 @@ def rand_op(rng, st):
     if r < 0.67:
         m = rng.choice([k for k in (n - 1, n + 1, n + 2, 0) if k >= 0 and k != n])
         return ("all", [0.25] * m)
-    if r < 0.77:
+    if r < 0.74:
         return ("reset",)
-    if r < 0.89:
+    if r < 0.81:
         return ("clone",)
-    return ("dict",)
+    if r < 0.87:
+        return ("dict",)
+    return ("look", rng.choice(["dict", "dict", "dict", "clone", "clone", "read", "read", "str", "series"]))
 
 
 # ----------------------------------------------------------------------------
@@ -353,6 +376,17 @@ def mutate_in_place(v):
             arr[...] = np.where(np.isnan(arr), 7.0, arr + 3.0)
     if len(v.names):
         v.names[...] = "q"
+
+
+def scribble_dict(dct):
+    """edit everything an export holds (the dictionary belongs to the caller)"""
+    for e in dct["data"]:
+        for k in ("value", "min", "max", "default"):
+            e[k] = 4321.0
+        e["name"] = "q"
+    dct["data"].append({"name": "extra", "value": 1.0, "min": 0.0, "max": 2.0, "default": 1.0})
+    dct["nval"] = dct["nval"] + 1
+    dct["hitbounds"] = not dct["hitbounds"]
 
 
 class Hist:
@@ -390,6 +424,101 @@ class Hist:
                 self.fail(f"C12/{fn}/{mode}", replay,
                           f"after {fn}: {k} = {st[k]!r}, was {s0[k]!r} before")
 
+    def copy_state(self, fn, before, got, replay):
+        """a clone / round trip of a vector in state `before` is in state `got`: every field"""
+        self.frame(fn, before, got, replay)
+        d = diff_fields(before, got)
+        if "hit" in d:
+            self.fail(f"C12/{fn}/hitbounds-not-reproduced", replay,
+                      f"{fn}: hitbounds {before['hit']} -> {got['hit']}")
+        if "values" in d:
+            self.fail(f"C12/{fn}/state-not-reproduced", replay,
+                      f"{fn}: values {before['values']} -> {got['values']}")
+
+    def dict_content(self, before, dct, replay):
+        """to_dict() of a vector whose attributes read `before`"""
+        n = len(before["names"])
+        ok = (dct["nval"] == n and bool(dct["hitbounds"]) == before["hit"]
+              and bool(dct["check_bounds"]) == before["cb"]
+              and bool(dct["check_hitbounds"]) == before["chb"]
+              and bool(dct["accept_nan"]) == before["an"] and len(dct["data"]) == n
+              and all(str(e["name"]) == before["names"][i]
+                      and same_num(float(e["value"]), before["values"][i])
+                      and same_num(float(e["min"]), before["mins"][i])
+                      and same_num(float(e["max"]), before["maxs"][i])
+                      and same_num(float(e["default"]), before["defaults"][i])
+                      for i, e in enumerate(dct["data"])))
+        if not ok:
+            self.fail("C12/to_dict/content", replay, f"to_dict() = {dct} for state {before}")
+
+    def look(self, v, what, before, replay):
+        """one read-only use of vector v, whose attributes read `before`; v stays the current object.
+        An export / a copy made now reproduces `before` whatever was exported, copied or assigned
+        earlier; the use itself, and later edits of what it handed out, leave v as it was.
+        -> exception text"""
+        Vector = self.Vector
+        fn = LOOK_FN[what]
+        exc = ""
+        handed = None
+        try:
+            if what == "dict":
+                dct = v.to_dict()
+                self.dict_content(before, dct, replay)
+                w = Vector.from_dict(dct)
+                if w is v:
+                    self.fail("C12/from_dict/not-independent", replay, "from_dict returned the source object")
+                else:
+                    self.copy_state(fn, before, snap(w), replay)
+                    handed = (dct, w)
+            elif what == "clone":
+                w = v.clone()
+                if w is v:
+                    self.fail("C12/clone/not-independent", replay, "clone returned the same object")
+                else:
+                    self.copy_state(fn, before, snap(w), replay)
+                    handed = (None, w)
+            elif what == "read":
+                if v.nval != len(before["names"]):
+                    self.fail("C12/read/nval-differs", replay, f"nval = {v.nval} for names {before['names']}")
+                for i, nm in enumerate(before["names"]):
+                    for how, x in (("attribute", getattr(v, nm)), ("key", v[nm])):
+                        if not same_num(float(x), before["values"][i]):
+                            self.fail("C12/read/by-name-differs", replay,
+                                      f"'{nm}' read by {how} is {float(x)!r}, values[{i}] is "
+                                      f"{before['values'][i]!r}")
+            elif what == "str":
+                str(v)
+            elif what == "series":
+                v.to_series()
+            else:
+                raise RuntimeError(f"unknown look {what}")
+        except RuntimeError:
+            raise
+        except Exception as e:
+            exc = f"{type(e).__name__}: {e}"
+            if what in ("dict", "clone"):
+                self.fail(f"C12/{fn}/raises", replay, f"{fn}() raised on a valid vector: {exc}")
+            # (whether printing / to_series succeed is not the property's business)
+        after = snap(v)
+        d = diff_fields(before, after)
+        if d:
+            self.fail(f"C12/{fn}/source-changed", replay,
+                      f"the read-only use {what} changed {d} of the vector: {before} -> {after}")
+        elif handed is not None:
+            # what was handed out belongs to the caller: editing it must not reach the vector
+            try:
+                if handed[0] is not None:
+                    scribble_dict(handed[0])
+                mutate_in_place(handed[1])
+            except ValueError:
+                pass
+            d = diff_fields(before, snap(v))
+            if d:
+                self.fail(f"C12/{fn}/not-independent", replay,
+                          f"editing the {'export and the ' if handed[0] is not None else ''}copy "
+                          f"changed {d} of the source")
+        return exc
+
     def run(self, ctor, ops, tag):
         Vector, ctx = self.Vector, self.ctx
         base = {"ctor": ctor, "ops": [list(o) for o in ops]}
@@ -413,6 +542,12 @@ class Hist:
         cur = s0
         for k, op in enumerate(ops):
             before, vb = cur, v
+            if op[0] == "look":
+                replay = dict(base, ops=[list(o) for o in ops[:k + 1]], failing_step=k, before=before)
+                self.look(v, op[1], before, replay)
+                cur = snap(v)
+                trace.append((0, cur))      # (dropped from the Coq term, see c_hist)
+                continue
             v, code, exc = apply_op(Vector, v, op)
             after = snap(v)
             trace.append((code, after))
@@ -464,6 +599,11 @@ class Hist:
                 if "values" in d:
                     self.fail(f"C12/{fn}/state-not-reproduced", replay,
                               f"{fn}: values {before['values']} -> {after['values']}")
+                if v is not vb:
+                    d = diff_fields(before, snap(vb))
+                    if d:
+                        self.fail(f"C12/{fn}/source-changed", replay,
+                                  f"{fn} changed {d} of the vector it copies")
                 if v is vb:
                     self.fail(f"C12/{fn}/not-independent", replay, f"{fn} returned the same object")
                 else:
@@ -492,21 +632,18 @@ class Hist:
                     except ValueError:
                         pass
                 if kind == "dict":
-                    dct = vb.to_dict()
-                    ok = (dct["nval"] == n and bool(dct["hitbounds"]) == before["hit"]
-                          and bool(dct["check_bounds"]) == before["cb"]
-                          and bool(dct["check_hitbounds"]) == before["chb"]
-                          and bool(dct["accept_nan"]) == before["an"] and len(dct["data"]) == n
-                          and all(str(e["name"]) == before["names"][i]
-                                  and same_num(float(e["value"]), before["values"][i])
-                                  and same_num(float(e["min"]), before["mins"][i])
-                                  and same_num(float(e["max"]), before["maxs"][i])
-                                  and same_num(float(e["default"]), before["defaults"][i])
-                                  for i, e in enumerate(dct["data"])))
-                    if not ok:
-                        self.fail("C12/to_dict/content", replay, f"to_dict() = {dct} for state {before}")
+                    self.dict_content(before, vb.to_dict(), replay)
             cur = after
-        ctx.count((tag, len(s0["names"]), s0["chb"], s0["an"], min(len(ops), 4)))
+        # --- the end of a history: the final state can be exported and copied.  (Only where that says
+        # something new: the vector - or the one it was copied from - has been exported / copied before
+        # and assigned to since; otherwise it is the history "..., dict" / "..., clone" of the alphabet.)
+        seen = ("look", "clone", "dict")
+        if ops and ops[-1][0] not in seen and any(o[0] in seen for o in ops[:-1]):
+            for what in ("dict", "clone"):
+                self.look(v, what, cur, dict(base, ops=[list(o) for o in ops] + [["look", what]],
+                                             failing_step=len(ops), before=cur))
+        ctx.count((tag, len(s0["names"]), s0["chb"], s0["an"], min(len(ops), 4),
+                   any(o[0] == "look" for o in ops)))
         return s0, trace
 
 
@@ -654,7 +791,10 @@ def run(ctx):
     ctx.rule = ("exhaustive: every sequence of 2 operations (3 for vectors without names; 3 for one name in "
                 "the thorough tier) over the alphabet {set by attribute, set by key} x {below, on lower, inside, "
                 "on upper, above, NaN} + unknown attribute/key + whole-vector assignments over the product "
-                "alphabet + wrong lengths + reset + clone + dict round trip, on vectors of 0, 1, 2 names, bound "
+                "alphabet + wrong lengths + reset + clone + dict round trip (continuing with the copy) + "
+                "read-only uses continuing with the SAME object (export to a dictionary and round trip, clone; "
+                "in the random histories also reads by name, printing, to_series), histories that assign after an "
+                "export / a copy ending with an export and a clone of the final state, on vectors of 0, 1, 2 names, bound "
                 "kinds finite/half-infinite/infinite/point, the three admissible flag combinations x accept_nan; "
                 "random histories of up to 40 operations on vectors of 0..4 names (values on a bound or at least "
                 "1e-6 away, +-inf, NaN); rejected constructor calls; 26 transform tables; non-trivial = distinct "
@@ -750,7 +890,7 @@ def run(ctx):
         cv = class_values(lo, hi)
         small = [("attr", nm, cv["below"]), ("key", nm, cv["inside"]), ("attr", nm, NAN),
                  ("all", [cv["above"]]), ("all", [cv["onhi"]]), ("all", [NAN]), ("key", "zz", 1.0),
-                 ("all", []), ("reset",), ("clone",), ("dict",)]
+                 ("all", []), ("reset",), ("clone",), ("dict",), ("look", "dict"), ("look", "clone")]
         for seq in itertools.product(small, repeat=3):
             do_hist(ctor, list(seq), "exh1d3")
 
